@@ -15,6 +15,8 @@ OBJ = "src/scenic/core/object_types.py"
 VEC = "src/scenic/core/vectors.py"
 VEN = "src/scenic/syntax/veneer.py"
 REQ = "src/scenic/core/requirements.py"
+REG = "src/scenic/core/regions.py"
+GEO = "src/scenic/core/geometry.py"
 
 
 # ----------------------------------------------------------------------------- small AST helpers
@@ -517,7 +519,218 @@ def extract_wrappers():
     nv = get_def(req, "NonVisibilityRequirement.falsifiedByInner", REQ)
     ok3 = [ast.unparse(s) for s in body_nodoc(nv)] == ["return not super().falsifiedByInner(sample)"]
     w["reqOccludersFiltered"] = bool(ok1 and ok2 and ok3)
+    # Point.visibleRegion = SpheroidRegion(position=self.position, dimensions=(k*D, k*D, k*D))
+    fn = get_def(tree, "Point.visibleRegion", OBJ)
+    kwp, envp = kwargs_of_cansee(fn, "SpheroidRegion"), local_assigns(fn)
+    expect(set(kwp) == {"position", "dimensions"} and ast.unparse(resolve(kwp["position"], envp)) == "self.position",
+           "Point.visibleRegion: SpheroidRegion(position=self.position, dimensions=...)")
+    w["pointRegionDiamFactor"] = cube_factor(kwp["dimensions"], envp, "self.visibleDistance", "Point.visibleRegion")
+    # ViewRegion: base sphere of diameter k*visibleDistance; every form is the sphere or an intersection with it
+    _, reg = load(REG)
+    vr = get_def(reg, "ViewRegion.__init__", REG)
+    envv = {}
+    for n in ast.walk(vr):
+        if isinstance(n, ast.Assign) and len(n.targets) == 1 and isinstance(n.targets[0], ast.Name) \
+                and n.targets[0].id not in ("view_region", "viewAngles"):
+            expect(n.targets[0].id not in envv, f"ViewRegion.__init__: {n.targets[0].id} assigned twice")
+            envv[n.targets[0].id] = n.value
+    expect("base_sphere" in envv and isinstance(envv["base_sphere"], ast.Call) and is_name(envv["base_sphere"].func, "SpheroidRegion")
+           and not envv["base_sphere"].args and [k.arg for k in envv["base_sphere"].keywords] == ["dimensions"],
+           "ViewRegion.__init__: base_sphere = SpheroidRegion(dimensions=...)")
+    w["viewRegionDiamFactor"] = cube_factor(envv["base_sphere"].keywords[0].value, envv, "visibleDistance", "ViewRegion.__init__")
+    forms = [n.value for n in ast.walk(vr) if isinstance(n, ast.Assign) and is_name(n.targets[0], "view_region")]
+    ok_forms = len(forms) >= 2 and all(
+        (isinstance(v, ast.Constant) and v.value is None) or is_name(v, "base_sphere")
+        or (isinstance(v, ast.Call) and dotted(v.func) == "base_sphere.intersect" and len(v.args) == 1 and not v.keywords)
+        for v in forms)
+    sup = [n for n in ast.walk(vr) if isinstance(n, ast.Call) and ast.unparse(n.func) == "super().__init__"]
+    expect(len(sup) == 1, "ViewRegion.__init__: super().__init__")
+    skw = {k.arg: ast.unparse(k.value) for k in sup[0].keywords}
+    w["viewRegionWithinSphere"] = bool(ok_forms and skw.get("mesh") == "view_region.mesh" and skw.get("position") == "position"
+                                       and skw.get("rotation") == "rotation" and skw.get("centerMesh") == "False")
     return w
+
+
+def scale_factor(node, env, base, where, depth=0):
+    """k such that node denotes k * <base> (names are followed through the local assignments)"""
+    expect(depth < 8, f"{where}: cyclic local definitions")
+    if isinstance(node, ast.Name) and node.id in env:
+        return scale_factor(env[node.id], env, base, where, depth + 1)
+    if ast.unparse(node) == base:
+        return Fraction(1)
+    if isinstance(node, ast.BinOp) and isinstance(node.op, ast.Mult):
+        for a, b in ((node.left, node.right), (node.right, node.left)):
+            if isinstance(a, ast.Constant) and isinstance(a.value, (int, float)) and not isinstance(a.value, bool):
+                return Fraction(a.value) * scale_factor(b, env, base, where, depth + 1)
+    if isinstance(node, ast.BinOp) and isinstance(node.op, ast.Div) and isinstance(node.right, ast.Constant) \
+            and isinstance(node.right.value, (int, float)) and node.right.value:
+        return scale_factor(node.left, env, base, where, depth + 1) / Fraction(node.right.value)
+    if isinstance(node, ast.BinOp) and isinstance(node.op, ast.Add):
+        return scale_factor(node.left, env, base, where, depth + 1) + scale_factor(node.right, env, base, where, depth + 1)
+    raise TemplateMismatch(f"{where}: {ast.unparse(node)[:60]} is not a multiple of {base}")
+
+
+def cube_factor(node, env, base, where):
+    """(k*base, k*base, k*base) -> k (a natural number)"""
+    node = resolve(node, env)
+    expect(isinstance(node, ast.Tuple) and len(node.elts) == 3, f"{where}: dimensions is not a 3-tuple")
+    ks = {scale_factor(e, env, base, where) for e in node.elts}
+    expect(len(ks) == 1, f"{where}: the three dimensions differ")
+    k = ks.pop()
+    expect(k.denominator == 1 and k >= 0, f"{where}: diameter factor {k} is not a natural number")
+    return int(k)
+
+
+# ----------------------------------------------------------------------------- 2D compatibility mode
+def stmts(fn):
+    return [ast.unparse(s) for s in body_nodoc(fn)]
+
+
+def extract_2d():
+    c = {}
+    _, tree = load(OBJ)
+    cs = get_def(tree, "Point2D.canSee", OBJ)
+    expect([a.arg for a in cs.args.args] == ["self", "other", "occludingObjects"], "Point2D.canSee signature")
+    body = body_nodoc(cs)
+    c["fastPathWithoutOccluders"] = (
+        len(body) == 2 and isinstance(body[0], ast.If) and not body[0].orelse
+        and ast.unparse(body[0].test) == "not occludingObjects"
+        and [ast.unparse(x) for x in body[0].body] == ["return self._canSee2D(other)"]
+        and ast.unparse(body[1]) in ("return self._3DClass.canSee(self, other, occludingObjects)",
+                                     "return self._3DClass.canSee(self, other, occludingObjects=occludingObjects)"))
+    expect(c["fastPathWithoutOccluders"], "Point2D.canSee: fast path shape changed")
+    for cls, k3 in (("Point2D", "Point"), ("OrientedPoint2D", "OrientedPoint"), ("Object2D", "Object")):
+        cd = get_def(tree, cls, OBJ)
+        a = [n for n in cd.body if isinstance(n, ast.Assign) and is_name(n.targets[0], "_3DClass")]
+        expect(len(a) == 1 and is_name(a[0].value, k3), f"{cls}._3DClass is not {k3}")
+    c2 = get_def(tree, "Point2D._canSee2D", OBJ)
+    body = body_nodoc(c2)
+    expect(len(body) == 1 and isinstance(body[0], ast.If), "_canSee2D: dispatch")
+    branches, node = [], body[0]
+    while isinstance(node, ast.If):
+        branches.append((ast.unparse(node.test), [ast.unparse(x) for x in node.body]))
+        node = node.orelse[0] if len(node.orelse) == 1 and isinstance(node.orelse[0], ast.If) else None
+    pt = [b for t, b in branches if t in ("isinstance(other, (Vector, Point2D))", "isinstance(other, (Point2D, Vector))")]
+    expect(len(pt) == 1 and len(branches) == 2 and branches[0][0] == "isinstance(other, Object2D)", "_canSee2D: branches")
+    c["pointViaRegion"] = pt[0] == ["return self.visibleRegion.containsPoint(toVector(other))"]
+    expect(branches[0][1] == ["return self.visibleRegion.polygons.intersects(other._boundingPolygon)"], "_canSee2D: object branch")
+    c["discArgs"] = stmts(get_def(tree, "Point2D.visibleRegion", OBJ)) == ["return CircularRegion(self.position, self.visibleDistance)"]
+    sec = "SectorRegion({}, self.visibleDistance, self.heading, self.viewAngle)"
+    c["sectorArgs"] = stmts(get_def(tree, "OrientedPoint2D.visibleRegion", OBJ)) == ["return " + sec.format("self.position")]
+    fn = get_def(tree, "Object2D.visibleRegion", OBJ)
+    env = local_assigns(fn)
+    rets = [n for n in body_nodoc(fn) if isinstance(n, ast.Return)]
+    expect(len(rets) == 1 and isinstance(rets[0].value, ast.Call) and is_name(rets[0].value.func, "SectorRegion")
+           and len(rets[0].value.args) == 4 and not rets[0].value.keywords, "Object2D.visibleRegion: return SectorRegion(4 args)")
+    args = [ast.unparse(resolve(a, env)) for a in rets[0].value.args]
+    expect(args[1:] == ["self.visibleDistance", "self.heading", "self.viewAngle"], "Object2D.visibleRegion: sector arguments")
+    if args[0] == "self.position.offsetRotated(self.heading, self.cameraOffset)":
+        c["objCamOffsetRotated"] = True
+    elif args[0] == "self.position":
+        c["objCamOffsetRotated"] = False
+    else:
+        raise TemplateMismatch(f"Object2D.visibleRegion: camera is {args[0]}")
+    # Vector.rotatedBy / offsetRotated
+    _, vt = load(VEC)
+    rb = get_def(vt, "Vector.rotatedBy", VEC)
+    body = stmts(rb)
+    expect(len(body) == 4 and body[0].startswith("if isinstance(angleOrOrientation, Orientation):")
+           and body[1] == "x, y, z = (self.x, self.y, self.z)" and body[2] == "c, s = (cos(angleOrOrientation), sin(angleOrOrientation))",
+           "Vector.rotatedBy changed")
+    if body[3] == "return Vector(c * x - s * y, s * x + c * y, z)":
+        c["rotatedByCCW"] = True
+    elif body[3] == "return Vector(c * x + s * y, -s * x + c * y, z)" or body[3] == "return Vector(c * x + s * y, c * y - s * x, z)":
+        c["rotatedByCCW"] = False
+    else:
+        raise TemplateMismatch("Vector.rotatedBy: rotation formula changed: " + body[3])
+    expect(stmts(get_def(vt, "Vector.offsetRotated", VEC)) == ["ro = offset.rotatedBy(angleOrOrientation)", "return self + ro"],
+           "Vector.offsetRotated changed")
+    # SectorRegion / CircularRegion .containsPoint
+    _, reg = load(REG)
+    planar, within = [], []
+    for cls, cone in (("SectorRegion", True), ("CircularRegion", False)):
+        init = get_def(reg, cls + ".__init__", REG)
+        sup = [n for n in ast.walk(init) if isinstance(n, ast.Call) and ast.unparse(n.func) == "super().__init__"]
+        expect(len(sup) == 1 and {k.arg: ast.unparse(k.value) for k in sup[0].keywords}.get("z") == "self.center.z",
+               f"{cls}.__init__: z=self.center.z")
+        cp = body_nodoc(get_def(reg, cls + ".containsPoint", REG))
+        expect(len(cp) == (4 if cone else 3) and ast.unparse(cp[0]) == "point = toVector(point)", f"{cls}.containsPoint shape")
+        z = cp[1]
+        expect(isinstance(z, ast.If) and not z.orelse and returns_const(z.body, False), f"{cls}.containsPoint: planarity test")
+        planar.append(ast.unparse(z.test) in ("point.z != self.z", "self.z != point.z"))
+        if cone:
+            expect(ast.unparse(cp[2]) == "if not pointIsInCone(tuple(point), tuple(self.center), self.heading, self.angle):\n    return False",
+                   "SectorRegion.containsPoint: cone test")
+        r = cp[-1]
+        expect(isinstance(r, ast.Return) and isinstance(r.value, ast.Compare) and len(r.value.ops) == 1
+               and cmp_dir(r.value.ops[0]) is not None, f"{cls}.containsPoint: distance test")
+        l, rr, d = ast.unparse(r.value.left), ast.unparse(r.value.comparators[0]), cmp_dir(r.value.ops[0])
+        if l == "self.radius":
+            l, rr, d = rr, l, -d
+        expect(l in ("point.distanceTo(self.center)", "self.center.distanceTo(point)") and rr == "self.radius",
+               f"{cls}.containsPoint: distance test operands")
+        within.append(d == 1)
+    expect(len(set(planar)) == 1 and len(set(within)) == 1, "sector and disc membership tests differ")
+    c["planarOnly"], c["distWithin"] = planar[0], within[0]
+    # geometry.pointIsInCone / viewAngleToPoint
+    _, geo = load(GEO)
+    pic = get_def(geo, "pointIsInCone", GEO)
+    expect([a.arg for a in pic.args.args] == ["point", "base", "heading", "angle"], "pointIsInCone signature")
+    body = stmts(pic)
+    expect(len(body) == 2 and body[0] == "va = viewAngleToPoint(point, base, heading)", "pointIsInCone changed")
+    if body[1] in ("return abs(va) <= angle / 2.0", "return abs(va) <= angle / 2"):
+        c["coneHalfAngle"] = True
+    else:
+        raise TemplateMismatch("pointIsInCone: comparison changed: " + body[1])
+    va = get_def(geo, "viewAngleToPoint", GEO)
+    expect([a.arg for a in va.args.args] == ["point", "base", "heading"], "viewAngleToPoint signature")
+    env = {}
+    ret = None
+    for st in body_nodoc(va):
+        if isinstance(st, ast.Assign) and isinstance(st.targets[0], ast.Tuple) and isinstance(st.value, ast.Name) \
+                and st.value.id in ("point", "base"):
+            for i, e in enumerate(st.targets[0].elts):
+                expect(isinstance(e, ast.Name), "viewAngleToPoint: unpacking")
+                env[e.id] = (st.value.id, i)
+        elif isinstance(st, ast.Assign) and isinstance(st.targets[0], ast.Name):
+            env[st.targets[0].id] = st.value
+        elif isinstance(st, ast.Return):
+            ret = st.value
+        else:
+            raise TemplateMismatch("viewAngleToPoint: unexpected statement")
+    expect(isinstance(ret, ast.Call) and is_name(ret.func, "normalizeAngle") and len(ret.args) == 1, "viewAngleToPoint: return normalizeAngle(..)")
+    e = ret.args[0]
+    e = env.get(e.id, e) if isinstance(e, ast.Name) else e
+    at, head, quarter = cone_terms(e, 1)
+    expect(head == -1, "viewAngleToPoint: the heading is not subtracted exactly once")
+    expect((quarter * 2).denominator == 1, "viewAngleToPoint: offset is not a multiple of pi/2")
+    c["coneQuarter"] = int(quarter * 2)
+
+    def comp(n):
+        expect(isinstance(n, ast.BinOp) and isinstance(n.op, ast.Sub) and isinstance(n.left, ast.Name) and isinstance(n.right, ast.Name)
+               and env.get(n.left.id, (None,))[0] == "point" and env.get(n.right.id, (None,))[0] == "base"
+               and env[n.left.id][1] == env[n.right.id][1], "viewAngleToPoint: atan2 arguments are not point[i] - base[i]")
+        return env[n.left.id][1]
+    c["coneNum"], c["coneDen"] = comp(at.args[0]), comp(at.args[1])
+    return c
+
+
+def cone_terms(node, sign):
+    """node = atan2(..) + a*heading + q*pi   ->  (atan2 call, a, q)"""
+    if isinstance(node, ast.BinOp) and isinstance(node.op, (ast.Add, ast.Sub)):
+        a1, h1, q1 = cone_terms(node.left, sign)
+        a2, h2, q2 = cone_terms(node.right, sign if isinstance(node.op, ast.Add) else -sign)
+        expect(a1 is None or a2 is None, "viewAngleToPoint: two atan2 terms")
+        return a1 or a2, h1 + h2, q1 + q2
+    m = pi_multiple(node)
+    if m is not None:
+        return None, 0, sign * m
+    if is_name(node, "heading"):
+        return None, sign, Fraction(0)
+    if isinstance(node, ast.Call) and dotted(node.func) in ("math.atan2", "np.arctan2", "atan2") and len(node.args) == 2:
+        expect(sign == 1, "viewAngleToPoint: atan2 is negated")
+        return node, 0, Fraction(0)
+    raise TemplateMismatch("viewAngleToPoint: unexpected term " + ast.unparse(node)[:60])
 
 
 def materialised_filter(value, source, conds, alias):
@@ -549,7 +762,7 @@ def extract():
     cfg, obj_if = extract_point_branch(fn)
     obj = extract_object_branch(obj_if)
     wrap = extract_wrappers()
-    return {"cfg": cfg, "obj": obj, "wrap": wrap}
+    return {"cfg": cfg, "obj": obj, "wrap": wrap, "c2d": extract_2d()}
 
 
 def lean_bool(b):
@@ -569,14 +782,18 @@ CFG_FIELDS = ["translateFirst", "rayRotatedBack", "distRejectBeyond", "azNum", "
 OBJ_FIELDS = ["centreShortcut", "distRejectBeyond", "translateFirst", "rayFormula", "rayRotatedBack", "hitRejectBeyond",
               "occBlockIfCloser", "closestHit", "survivorVisible"]
 WRAP_FIELDS = ["objCamOffsetLocal", "objRegionSameCam", "orientedPassOrientation", "orientedCamIsPosition", "pointFullSphere",
-               "passVisibleDistance", "opOccludersFiltered", "reqOccludersFiltered"]
+               "passVisibleDistance", "opOccludersFiltered", "reqOccludersFiltered", "pointRegionDiamFactor",
+               "viewRegionDiamFactor", "viewRegionWithinSphere"]
+C2D_FIELDS = ["fastPathWithoutOccluders", "pointViaRegion", "discArgs", "sectorArgs", "objCamOffsetRotated", "rotatedByCCW",
+              "planarOnly", "distWithin", "coneNum", "coneDen", "coneQuarter", "coneHalfAngle"]
 
 
 REFERENCE = {
     "cfg": dict(translateFirst=True, rayRotatedBack=True, distRejectBeyond=True, azNum=1, azDen=0, azQuarter=-1, altComp=2,
                 azAngleIdx=0, altAngleIdx=1, occBlockIfCloser=True, occFilterWithin=True),
     "obj": {k: True for k in OBJ_FIELDS},
-    "wrap": {k: True for k in WRAP_FIELDS},
+    "wrap": dict({k: True for k in WRAP_FIELDS}, pointRegionDiamFactor=2, viewRegionDiamFactor=2),
+    "c2d": dict({k: True for k in C2D_FIELDS}, coneNum=1, coneDen=0, coneQuarter=-1),
 }
 
 
@@ -598,6 +815,11 @@ def visObjCfg : ObjCfg :=
 /-- choices of `Point/OrientedPoint/Object.canSee`, `visibleRegion`, `CanSee`, `VisibilityRequirement` -/
 def visWrapCfg : WrapCfg :=
   {{ {rec(WRAP_FIELDS, d['wrap'])} }}
+
+/-- choices of the 2D compatibility mode (`Point2D.canSee`, the 2D `visibleRegion`s, `SectorRegion.containsPoint`,
+    `geometry.pointIsInCone`, `Vector.rotatedBy`) -/
+def visCfg2D : Cfg2D :=
+  {{ {rec(C2D_FIELDS, d['c2d'])} }}
 
 end Scenic.Gen
 """
